@@ -77,13 +77,27 @@ func (tss *TopicSelectorStore) getRegexp(topicSelector string) *regexp.Regexp {
 
 	// If an error occurs, it's a raw string
 	if tpl, err := uritemplate.New(topicSelector); err == nil {
-		r := tpl.Regexp()
-		if tss.cache != nil {
-			tss.cache.Set(k, r, 19)
-		}
+		if r := templateRegexp(tpl); r != nil {
+			if tss.cache != nil {
+				tss.cache.Set(k, r, 19)
+			}
 
-		return r
+			return r
+		}
 	}
 
 	return nil
+}
+
+// templateRegexp returns nil when the regular expression generated from the template
+// cannot be compiled: uritemplate panics in this case (for instance when an expression
+// contains more than 1001 variables), and such a selector is then a raw string.
+func templateRegexp(tpl *uritemplate.Template) (r *regexp.Regexp) {
+	defer func() {
+		if recover() != nil {
+			r = nil
+		}
+	}()
+
+	return tpl.Regexp()
 }
